@@ -1040,6 +1040,13 @@ class FnLower:
                 # several constructors of that arity: the parameter types decide (arrays decay to pointers)
                 def base(t): return norm(re.sub(r'\[\d*\]$', '*', re.sub(r'&+$', '', t.strip())))
                 ctors = [c for c in ctors if all(base(qt(p['type'])) == base(qt(a['type'])) for p, a in zip([p for p in c.get('inner', []) if p.get('kind') == 'ParmVarDecl'], args))]
+            if len(ctors) > 1:
+                # perfect forwarding: an lvalue argument selects the instantiation with `T &`, an rvalue the one with `T &&` (or by value)
+                def cat_ok(p, a):
+                    t = qt(p['type']).strip()
+                    if not t.endswith('&'): return True
+                    return (a.get('valueCategory') == 'lvalue') == (not t.endswith('&&'))
+                ctors = [c for c in ctors if all(cat_ok(p, a) for p, a in zip([p for p in c.get('inner', []) if p.get('kind') == 'ParmVarDecl'], args))]
             if len(ctors) != 1: self.unsupported('std::make_unique<%s>: %d constructors fit the arguments' % (ret_t[1], len(ctors)))
             ct = L.ctype_of(pt); p = self.tmp('_new')
             # arguments are forwarded: an array (string literal) bound to a pointer parameter decays
